@@ -78,7 +78,7 @@ def add_noise(e: ESpec):
         if r & 8:
             e.extra.setdefault('variant_attrs', {}).setdefault(v.ident, []).append(['#[doc(hidden)]', '#[doc(alias = "noise")]'][k % 2])
     if e.err and 'err_form' not in e.extra:
-        e.extra['err_form'] = ['plain', 'path', 'generic', 'argfn'][(h >> 62) % 4]
+        e.extra['err_form'] = ['plain', 'path', 'generic', 'argfn', 'strumerr', 'assoc'][(h >> 62) % 6]
     if 'gen_default' not in e.extra:
         e.extra['gen_default'] = bool((h >> 60) & 1)
     if 'eattr_layout' not in e.extra:
